@@ -110,7 +110,16 @@ pub fn run_client(args: &ClientArgs, mut respond: impl FnMut(&[Vec<u8>]) -> Vec<
     let mut early_exit = None;
     while requests.len() < args.nreq as usize {
         match mock.recv_from(&mut buf) {
-            Ok((n, src)) => requests.push((buf[..n].to_vec(), src)),
+            Ok((n, src)) => {
+                // belt and braces for hosts without private network namespaces: a datagram that is a *response*
+                // (it carries SREP and CERT) cannot come from the client; it is a stray from a recycled port
+                let d = &buf[..n];
+                let payload = if n >= 12 && &d[0..8] == b"ROUGHTIM" { &d[12..] } else { d };
+                let stray = crate::refcodec::Msg::decode_any(payload).map(|m| m.has(crate::refcodec::SREP) && m.has(crate::refcodec::CERT)).unwrap_or(false);
+                if !stray {
+                    requests.push((d.to_vec(), src));
+                }
+            }
             Err(_) => {
                 if let Ok(Some(st)) = child.try_wait() {
                     early_exit = Some(st);
